@@ -140,6 +140,15 @@ func c05Gen(t *rapid.T) *c05Case {
 	if similar {
 		simBase = genAmount(t, "simbase")
 	}
+	// with a price below one, amounts whose worth is around one quote coin sit on the edge of "too small to match"
+	centreP := amm.TickFromIndex(c.Centre, c.Prec)
+	var unitAmt sdkmath.Int
+	if centreP.LT(sdkmath.LegacyOneDec()) && centreP.IsPositive() {
+		unitAmt = sdkmath.LegacyOneDec().Quo(centreP).TruncateInt()
+		if similar && rapid.IntRange(0, 2).Draw(t, "simunit") == 0 && unitAmt.IsPositive() {
+			simBase = unitAmt.MulRaw(rapid.Int64Range(1, 30).Draw(t, "simunitmul"))
+		}
+	}
 	id := uint64(1)
 	mk := func(buy bool, i int) c05Order {
 		o := c05Order{Buy: buy, ID: id}
@@ -149,6 +158,13 @@ func c05Gen(t *rapid.T) *c05Case {
 			o.amt = simBase.MulRaw(rapid.Int64Range(1, 40).Draw(t, fmt.Sprintf("mul%d", id))).QuoRaw(10).AddRaw(1)
 		} else {
 			o.amt = genAmount(t, fmt.Sprintf("amt%d", id))
+		}
+		if !unitAmt.IsNil() && unitAmt.IsPositive() && rapid.IntRange(0, 5).Draw(t, fmt.Sprintf("unit%d", id)) == 0 {
+			// worth between half a quote coin and a few quote coins
+			o.amt = unitAmt.MulRaw(rapid.Int64Range(1, 8).Draw(t, fmt.Sprintf("unitmul%d", id))).QuoRaw(2).AddRaw(rapid.Int64Range(0, 2).Draw(t, fmt.Sprintf("unitj%d", id)))
+			if !o.amt.IsPositive() {
+				o.amt = sdkmath.OneInt()
+			}
 		}
 		o.Batch = uint64(rapid.SampledFrom([]int{0, 0, 1, 2, 2, 3, 5}).Draw(t, fmt.Sprintf("batch%d", id)))
 		o.extra = sdkmath.ZeroInt()
